@@ -70,7 +70,12 @@ def build_harness():
         open(os.path.join(hdir2, "go.mod"), "w").write(gm)
         hdir = hdir2
     shutil.copy(os.path.join(REPO, "go.sum"), os.path.join(hdir, "go.sum"))
-    rc, out, err = sh(["go", "build", "-tags", "verif", "-o", HARNESS_BIN, "."], cwd=hdir, env=GOENV, timeout=600)
+    cover = ["-cover", "-coverpkg=github.com/jessevdk/go-flags"] if os.environ.get("VERIF_COVER") else []
+    if cover:
+        # statement coverage of go-flags under the correspondence streams (bin/coverage); counters go to GOCOVERDIR
+        os.makedirs(os.environ.get("GOCOVERDIR", os.path.join(BUILD, "cover")), exist_ok=True)
+        GOENV["GOCOVERDIR"] = os.environ.get("GOCOVERDIR", os.path.join(BUILD, "cover"))
+    rc, out, err = sh(["go", "build", "-tags", "verif"] + cover + ["-o", HARNESS_BIN, "."], cwd=hdir, env=GOENV, timeout=600)
     if rc != 0:
         raise CheckError("harness build failed (does /repo still compile with -tags verif?):\n" + err.decode(errors="replace"))
 
